@@ -75,6 +75,12 @@ func Nilness(v ssa.Value, f NilFacts) (bool, bool) {
 		case *ssa.ChangeType:
 			v = x.X
 			continue
+		case *ssa.Call:
+			// a module constructor all of whose returns are fresh objects (reply builders)
+			if cal := x.Call.StaticCallee(); cal != nil && x.Call.Signature().Results().Len() == 1 && inModule(cal) && allocatingCtor(cal, 0) {
+				return true, false
+			}
+			return false, false
 		case *ssa.UnOp:
 			if x.Op == token.MUL {
 				if g, ok := x.X.(*ssa.Global); ok {
@@ -159,6 +165,16 @@ func NilWalkAfter(fn *ssa.Function, after ssa.Instruction, cut map[Edge]bool, st
 	return nilWalk(fn, nil, after, cut, stopAt, onInstr)
 }
 
+// NilWalkAfterWith is NilWalkAfter with facts assumed at the start (for instance "this call's error
+// result is nil": the success paths of the call, however its result is tested later).
+func NilWalkAfterWith(fn *ssa.Function, after ssa.Instruction, facts NilFacts, cut map[Edge]bool, stopAt func(ssa.Instruction) bool, onInstr func(ssa.Instruction, NilFacts)) NilWalkResult {
+	walkInitFacts = facts
+	defer func() { walkInitFacts = nil }()
+	return nilWalk(fn, nil, after, cut, stopAt, onInstr)
+}
+
+var walkInitFacts NilFacts
+
 // MaxWalkStates bounds one path-sensitive walk; exceeding it is reported as Overflow (undecided).
 var MaxWalkStates = 200000
 
@@ -203,7 +219,11 @@ func nilWalk(fn *ssa.Function, from map[Edge]bool, after ssa.Instruction, cut ma
 		b := after.Block()
 		for i, in := range b.Instrs {
 			if in == after {
-				work = append(work, item{b, nil, NilFacts{}, i + 1, map[ssa.Value]ssa.Value{}})
+				f0 := NilFacts{}
+				for k, v := range walkInitFacts {
+					f0[k] = v
+				}
+				work = append(work, item{b, nil, f0, i + 1, map[ssa.Value]ssa.Value{}})
 			}
 		}
 	} else if from == nil {
@@ -399,6 +419,26 @@ func applyEdgeFact(e Edge, f NilFacts, isCell func(ssa.Value) (ssa.Value, bool),
 // pass edges of the guards are cut, where infeasible combinations of nil tests are pruned.
 func GuardedByNil(fn *ssa.Function, sink ssa.Instruction, guards ...Guard) (bool, []int) {
 	cut, counts := PassEdges(fn, guards...)
+	res := NilWalk(fn, nil, cut, nil, nil)
+	if res.Overflow {
+		return false, counts
+	}
+	return !res.Blocks[sink.Block()], counts
+}
+
+// GuardedByNilCorr combines the nil-fact walk with the correlation pruning of GuardedByCorr.
+func GuardedByNilCorr(fn *ssa.Function, sink ssa.Instruction, guards ...Guard) (bool, []int) {
+	saved, savedP := Assumed, AssumedPaths
+	Assumed = DominatingConds(fn, sink)
+	AssumedPaths = DominatingPaths(fn, sink)
+	cut, counts := PassEdges(fn, guards...)
+	for e := range assumedCuts(fn) {
+		cut[e] = true
+	}
+	Assumed, AssumedPaths = saved, savedP
+	for e := range CorrelatedCuts(fn, sink) {
+		cut[e] = true
+	}
 	res := NilWalk(fn, nil, cut, nil, nil)
 	if res.Overflow {
 		return false, counts
